@@ -288,7 +288,7 @@ def check(model, rep, tier):
                              kinds=STMT_KINDS)
 
   # ---------------------------------------------------------------- dependencies
-  rep.depends('C05', ['CFG-STMT', 'CFG-PAIR', 'CFG-TRY', 'CFG-SCOPE', 'CFG-KEYED', 'CFG-JUMP', 'CFG-LEAVES'],
+  rep.depends('C05', None,
               'liveness is propagated backwards along the edges of this graph')
   rep.depends('C08', ['ACT-TRAV', 'ACT-ORDER', 'FINALIZE'],
               'the gen set of a statement is the read set of the activity '
